@@ -704,9 +704,8 @@ class StmtMixin:
             if sym is None:
                 e = EMPTY_SET
                 for a in acc:
-                    if self.impossible(s, V.is_str(a[0])) is False:
-                        self.unsupported(s, 'set comprehension over non-string elements')
-                    s.assume(V.is_str(a[0]))
+                    if not self.impossible(s, z3.Not(V.is_str(a[0]))):
+                        self.unsupported(s, 'set comprehension over elements not known to be strings')
                     e = z3.Store(e, V.s(a[0]), True)
                 return ok(s, self.new_set(s, e))
             j, rng, keep, vs, it = sym
@@ -716,7 +715,9 @@ class StmtMixin:
             wit = z3.Function('setc!wit!%d' % next(self.n), Str, Int)
             x = z3.String('setc!x!%d' % next(self.n))
             elt = vs[0]
-            s.assume(qforall([j], z3.Implies(rng, z3.And(V.is_str(elt), z3.Select(R, V.s(elt))))))
+            if not self.impossible(s, z3.And(rng, z3.Not(V.is_str(elt)))):
+                self.unsupported(s, 'set comprehension over elements not known to be strings')
+            s.assume(qforall([j], z3.Implies(rng, z3.Select(R, V.s(elt)))))
             s.assume(qforall([x], z3.Implies(z3.Select(R, x), z3.And(
                 z3.substitute(rng, (j, wit(x))), V.s(z3.substitute(elt, (j, wit(x)))) == x)), patterns=[z3.Select(R, x)]))
             return ok(s, self.new_set(s, R))
